@@ -166,8 +166,9 @@ int vg_snprintf(char *buf, size_t size, const char *fmt, long first_arg)
 int vg_snprintf(char *buf, size_t size, const char *fmt, long first_arg);
 #endif
 #undef snprintf
-#define snprintf(buf, size, ...) vg_snprintf((char *) (buf), (size), VG_SNPRINTF_ARGS(__VA_ARGS__, 0))
-#define VG_SNPRINTF_ARGS(fmt, ...) (fmt), (long) (__VA_ARGS__)
+#define snprintf(buf, size, ...) vg_snprintf((char *) (buf), (size), VG_SNPRINTF_ARGS(__VA_ARGS__, 0, 0))
+/* first variable argument (0 when there is none) is handed to the model, the others are evaluated */
+#define VG_SNPRINTF_ARGS(fmt, first, ...) (fmt), ((void) (__VA_ARGS__), (long) (first))
 
 /* ======================================================================================
  * 3. Name-service lookups.  Each call returns NULL or a pointer to a static record whose
